@@ -258,8 +258,113 @@ def search(ctx):
                 ctx.violation("C01:history:%s" % name, "repeating/re-ordering calculations changed a value (%s on %s)" % (name, type(sc).__name__),
                               dict(kind="history", theory=name, scatterer=repr(sc), order=[int(x) for x in idx]))
                 break
+    sibling_histories(ctx)
     ctx.sample(dict(kind="search", oracles=["holo == |s E + p|^2 from calc_field", "intensity == |E|^2", "scaling 0 -> exactly 1", "finite",
-                                            "coords/dims == detector's", "attrs updated", "inputs untouched", "shuffled sequences bit-identical"]))
+                                            "coords/dims == detector's", "attrs updated", "inputs untouched", "shuffled sequences bit-identical",
+                                            "sibling histories: calculations differing in one argument, every ordered pair consecutive once, bit-identical to the value after an unrelated call"]))
+
+
+# ------------------------------------------------------------------ sibling histories
+def euler_pairs(n):
+    """a closed walk on n vertices in which every ordered pair (i, j), i != j, appears exactly once as consecutive entries"""
+    adj = {i: [j for j in range(n) if j != i] for i in range(n)}
+    stack, out = [0], []
+    while stack:
+        v = stack[-1]
+        if adj[v]:
+            stack.append(adj[v].pop())
+        else:
+            out.append(stack.pop())
+    return out[::-1]
+
+
+def sibling_family(rng, kind):
+    """a base calculation and siblings that each differ from it in exactly ONE argument (what a wrongly keyed
+    cache or a stale COMMON block confuses); returns list of (label, kwargs for calc_holo)"""
+    from holopy.scattering import Spheres, Multisphere, Tmatrix, MieLens
+    from holopy.scattering.scatterer import Spheroid, Cylinder
+    c = (float(rng.uniform(0.5, 1.5)), float(rng.uniform(0.5, 1.5)), float(rng.uniform(5, 9)))
+    n0, r0 = float(rng.uniform(1.45, 1.6)), float(rng.uniform(0.3, 0.6))
+    rot = (0.0, float(rng.uniform(0.3, 1.2)), float(rng.uniform(0.3, 2.5)))
+    det0 = detector_grid((3, 2), 0.2)
+    det1 = detector_grid((3, 2), 0.25)
+    det2 = detector_points(x=np.array([0.3, 1.1, 2.0]), y=np.array([0.2, 0.9, 0.1]), z=0.0)
+    if kind == "Mie":
+        mk, scf = (lambda: Mie()), (lambda n=n0, r=r0, c=c, rot=rot: Sphere(n=n, r=r, center=c))
+    elif kind == "Mie(layered)":
+        mk, scf = (lambda: Mie()), (lambda n=n0, r=r0, c=c, rot=rot: Sphere(n=[n, n + 0.1], r=[0.6 * r, r], center=c))
+    elif kind == "MieLens":
+        c = (c[0], c[1], float(rng.uniform(2, 6)))
+        mk, scf = (lambda: MieLens()), (lambda n=n0, r=r0, c=c, rot=rot: Sphere(n=n, r=r, center=c))
+    elif kind == "Multisphere":
+        mk = lambda: Multisphere()
+        scf = lambda n=n0, r=r0, c=c, rot=rot: Spheres([Sphere(n=n, r=r, center=c), Sphere(n=n0 + 0.05, r=0.3, center=(c[0] + 1.2, c[1] + 0.3, c[2] + 0.4))], warn=False)
+    elif kind == "Tmatrix(spheroid)":
+        mk, scf = (lambda: Tmatrix()), (lambda n=n0, r=r0, c=c, rot=rot: Spheroid(n=n, r=(r, 1.4 * r), center=c, rotation=rot))
+    else:
+        mk, scf = (lambda: Tmatrix()), (lambda n=n0, r=r0, c=c, rot=rot: Cylinder(n=n, d=1.6 * r, h=2.0 * r, center=c, rotation=rot))
+    base = dict(det=det0, sc=scf(), nm=T.NMED, wl=T.WL, pol=(1.0, 0.0), scaling=1.0)
+    sib = [("base", dict(base)),
+           ("wavelength", dict(base, wl=T.WL * 0.7)),
+           ("medium-index", dict(base, nm=1.4)),
+           ("index", dict(base, sc=scf(n=n0 + 0.07))),
+           ("radius", dict(base, sc=scf(r=r0 * 1.2))),
+           ("position", dict(base, sc=scf(c=(c[0] + 0.4, c[1] - 0.3, c[2] + 1.0)))),
+           ("detector-spacing", dict(base, det=det1)),
+           ("detector-points", dict(base, det=det2)),
+           ("scaling", dict(base, scaling=0.6))]
+    if kind.startswith("Tmatrix"):
+        sib.append(("rotation", dict(base, sc=scf(rot=(0.0, rot[1] + 0.5, rot[2] - 0.2)))))
+        sib.append(("wavelength+index", dict(base, wl=T.WL * 0.7, sc=scf(n=n0 + 0.07))))
+    else:
+        sib.append(("polarization", dict(base, pol=(0.0, 1.0))))
+        sib.append(("polarization-oblique", dict(base, pol=(0.6, 0.8))))
+    return mk, sib
+
+
+def sibling_histories(ctx):
+    rng = ctx.rng
+    kinds = ["Mie", "Mie(layered)", "MieLens", "Multisphere", "Tmatrix(spheroid)", "Tmatrix(cylinder)"]
+    reps = ctx.n(1, 6)
+    for rep in range(reps):
+        for kind in kinds:
+            try:
+                mk, sib = sibling_family(rng, kind)
+                if ctx.tier == "quick":
+                    keep = [0, 1, 2, 3, 4] + sorted(rng.choice(np.arange(5, len(sib)), size=3, replace=False).tolist())
+                    sib = [sib[j] for j in keep]
+
+                def run(kw):
+                    return calc_holo(kw["det"], kw["sc"], medium_index=kw["nm"], illum_wavelen=kw["wl"], illum_polarization=kw["pol"],
+                                     theory=mk(), scaling=kw["scaling"]).values.copy()
+                scr = Sphere(n=1.41, r=0.37, center=(0.2, 0.1, 4.4))
+                scramble = lambda: calc_holo(detector_grid((2, 2), 0.3), scr, theory=Mie(), illum_polarization=(1.0, 0.0), **OPT)
+                ref = []
+                for lab, kw in sib:
+                    scramble()
+                    if kind.startswith("Tmatrix"):
+                        # also displace the T-matrix solver's COMMON state with an unrelated particle
+                        from holopy.scattering import Tmatrix as _Tm
+                        from holopy.scattering.scatterer import Spheroid as _Sp
+                        calc_holo(detector_grid((2, 2), 0.3), _Sp(n=1.43, r=(0.21, 0.33), center=(0.2, 0.1, 4.4), rotation=(0, 0.2, 0.1)), theory=_Tm(),
+                                  illum_polarization=(1.0, 0.0), **OPT)
+                    ref.append(run(kw))
+                walk = euler_pairs(len(sib))
+                ctx.tried("sibling-history", (kind, len(sib), rep, tuple(l for l, _ in sib)))
+                prev = None
+                for j in walk:
+                    v = run(sib[j][1])
+                    if v.tobytes() != ref[j].tobytes():
+                        dev = float(np.abs(v - ref[j]).max())
+                        ctx.violation("C01:history:%s" % kind, "%s: the calculation '%s' gives a different hologram (by %.3g) when it follows the calculation '%s' than after an unrelated one" % (
+                            kind, sib[j][0], dev, sib[prev][0] if prev is not None else "-"),
+                            dict(kind="sibling-history", theory=kind, differs_in=sib[j][0], after=sib[prev][0] if prev is not None else None, dev=dev,
+                                 base=repr(sib[0][1]["sc"]), this=repr(sib[j][1]["sc"]), wl=sib[j][1]["wl"], nm=sib[j][1]["nm"]))
+                        break
+                    prev = j
+            except Exception as ex:
+                import traceback
+                ctx.violation("C01:history-raises:%s:%s" % (kind, type(ex).__name__), "sibling history for %s raised %r" % (kind, ex), dict(kind="raises", tb=traceback.format_exc()[-600:]))
 
 
 def replay(ctx, data):
